@@ -310,6 +310,62 @@ def extreme_scale_stream(res, names, rng, k):
                                  'api': API[name], 'input': b, 'power_of_two': e, 'impl_output': enc_cycs(cs), 'model': ans.split(' ')[0]})
 
 
+def narrow_dtype_stream(res, names, rng, k):
+    """histories that fill a narrow integer dtype (raw ADC counts: int8 in -120..120, uint8 in 0..250, int16 in -30000..30000) given as
+    arrays of that dtype: the values fit, their differences do not.  Cycle list and table must be those of the same numbers as floats,
+    and the cycle list the model's."""
+    import numpy as np
+    core.import_impl()
+    from ffpack import lcc
+    reqs, meta = [], []
+    for _ in range(k):
+        dt, lo, hi = rng.choice([(np.int8, -120, 120), (np.uint8, 0, 250), (np.int16, -30000, 30000), (np.uint16, 0, 60000)])
+        n = rng.choice([4, 5, 7, 9, 12])
+        grid = rng.choice([1, (hi - lo) // 6, (hi - lo) // 3])
+        h = [lo + (rng.randrange(0, (hi - lo) // grid + 1) * grid) for _ in range(n)]
+        if rng.random() < 0.5:
+            h[rng.randrange(n)] = hi
+            h[rng.randrange(n)] = lo
+        if rng.random() < 0.3:
+            h[-1] = h[0]
+        if len(set(h)) < 2:
+            continue
+        for name in names:
+            if not valid_for(name, h):
+                continue
+            f = getattr(lcc, API[name])
+            res.evaluations += 1
+            res.stat('narrow_dtype_' + dt.__name__)
+            outs = {}
+            for label, data in (('float', [float(v) for v in h]), (dt.__name__, np.array(h, dtype=dt))):
+                try:
+                    seq = f(data, aggregate=False)
+                    agg = f(data if label == 'float' else np.array(h, dtype=dt), aggregate=True)
+                    seq = [] if seq == [[]] else seq
+                    agg = [] if agg == [[]] else agg
+                    outs[label] = ([(float(a), float(b), float(c)) for a, b, c in seq], [(float(r), float(c)) for r, c in agg])
+                except Exception as e:  # noqa
+                    outs[label] = 'raised ' + type(e).__name__ + ': ' + str(e)[:80]
+            if outs['float'] != outs[dt.__name__]:
+                res.failures.append({'signature': f'{res.pid}:{name}:narrow-dtype:{dt.__name__}:{enc_list(h)}',
+                                     'clause': 'cycle list / table of a %s array differ from those of the same numbers as floats' % dt.__name__,
+                                     'api': API[name], 'input': h, 'dtype': dt.__name__,
+                                     'impl_output': {k2: (v if isinstance(v, str) else {'cycles': v[0][:6], 'table': v[1][:6]}) for k2, v in outs.items()}})
+                continue
+            if isinstance(outs['float'], str):
+                continue
+            try:
+                cs = [(to_grid(a, 0), to_grid(b, 0), units(c)) for a, b, c in outs['float'][0]]
+            except OffGrid:
+                continue
+            reqs.append(model_line(name, h))
+            meta.append((name, h, cs))
+    for (name, h, cs), ans in zip(meta, core.driver_batch(reqs)):
+        res.traces += 1
+        if enc_cycs(cs) != ans.split(' ')[0]:
+            res.disagreements.append({'what': f'{API[name]} vs model (cycle list, wide integer history)', 'input': h, 'impl': enc_cycs(cs), 'model': ans.split(' ')[0]})
+
+
 def run_impl(name, h, s):
     """-> {'seq': [(a,b,u)], 'table': [(k,u)]} on the integer grid, or {'error': kind}"""
     core.import_impl()
